@@ -41,6 +41,11 @@ mxArray *mxCreateNumericArray(mwSize ndim, const mwSize *dims, mxClassID classid
   return alloc(classid, m, n);
 }
 mxArray *mxCreateNumericMatrix(mwSize m, mwSize n, mxClassID classid, mxComplexity) { return alloc(classid, m, n); }
+// the uninitialised variants: MATLAB leaves the memory as it is - the mock fills it with a recognisable pattern
+mxArray *mxCreateUninitNumericMatrix(mwSize m, mwSize n, mxClassID classid, mxComplexity) {
+  mxArray *a = alloc(classid, m, n); for (auto &b : a->data) b = (unsigned char)0xA5; return a; }
+mxArray *mxCreateUninitNumericArray(mwSize ndim, mwSize *dims, mxClassID classid, mxComplexity c) {
+  return mxCreateUninitNumericMatrix(ndim > 0 ? dims[0] : 1, ndim > 1 ? dims[1] : 1, classid, c); }
 mxArray *mxCreateDoubleMatrix(mwSize m, mwSize n, mxComplexity) { return alloc(mxDOUBLE_CLASS, m, n); }
 mxArray *mxCreateDoubleScalar(double value) {
   mxArray *a = alloc(mxDOUBLE_CLASS, 1, 1);
